@@ -489,3 +489,145 @@ Proof.
 Qed.
 Lemma cexec_LI os : forall s, LI s -> LI (cexec s os).
 Proof. unfold cexec. induction os as [|o os IH]; simpl; intros s L; [exact L|]. apply IH. apply cstep_LI. exact L. Qed.
+
+(* ---------- a done-closure keeps referring to the same value ---------- *)
+Lemma hs_value_step c o h v r : nth_error (hs c) h = Some (v, r) -> exists r', nth_error (hs (fst (step c o))) h = Some (v, r').
+Proof.
+  intros H. assert (Hlt : h < length (hs c)) by (eapply nth_some_lt; eauto).
+  destruct (evicting o) eqn:He.
+  - rewrite (hs_step_evicting c o He). destruct o as [k|k|k|k|h0 ev]; try discriminate; eauto.
+    destruct (nth_error (hs c) h0) as [[i []]|] eqn:H0; eauto.
+    destruct (Nat.eq_dec h0 h) as [->|Hne].
+    + rewrite nth_upd_eq by exact Hlt. rewrite H in H0. inversion H0; subst. eauto.
+    + rewrite nth_upd_ne by exact Hne. eauto.
+  - destruct o as [k|k|k|k|h0 ev]; try discriminate.
+    + destruct (lru_find (lru c) k) as [i|] eqn:Hf.
+      * rewrite (step_add_hit _ _ _ Hf). cbn [fst]. rewrite acquire_touch_hs, nth_error_app1 by exact Hlt. eauto.
+      * rewrite (step_add_new _ _ Hf). cbn [fst]. unfold trim. destruct (_ && _).
+        -- destruct (last _ _) as [[kk ii]|]; [rewrite evict_key_hs|]; rewrite add_new_hs, nth_error_app1 by exact Hlt; eauto.
+        -- rewrite add_new_hs, nth_error_app1 by exact Hlt. eauto.
+    + destruct (lru_find (lru c) k) as [i|] eqn:Hf.
+      * rewrite (step_get_hit _ _ _ Hf). cbn [fst]. rewrite acquire_touch_hs, nth_error_app1 by exact Hlt. eauto.
+      * rewrite (step_get_miss _ _ Hf). eauto.
+Qed.
+
+Lemma hval_step c o h v : M.hval c h = Some v -> M.hval (fst (step c o)) h = Some v.
+Proof.
+  unfold M.hval. destruct (nth_error (hs c) h) as [[w r]|] eqn:H; [|discriminate]. intros E. inversion E; subst.
+  destruct (hs_value_step c o h v r H) as [r' H']. rewrite H'. reflexivity.
+Qed.
+
+Lemma tstep_none s t ok : nth_error (M.thrs s) t = None -> M.tstep s t ok = (s, M.ENone).
+Proof. intros H. unfold M.tstep. rewrite H. reflexivity. Qed.
+
+Definition not_step_of (t : nat) (o : M.op) : Prop := forall ok, o <> M.RStep t ok.
+
+(* ops other than sub-steps of thread t leave thread t where it is, and every op keeps the values of done-closures *)
+Lemma step_other s o t th : nth_error (M.thrs s) t = Some th -> not_step_of t o ->
+  nth_error (M.thrs (fst (M.step s o))) t = Some th.
+Proof.
+  intros Ht Hn. assert (Hlt : t < length (M.thrs s)) by (eapply nth_some_lt; eauto).
+  destruct o as [n|t' ok|u|u|n|n|u|u ok]; cbn [M.step fst].
+  - cbn. rewrite nth_error_app1 by exact Hlt. exact Ht.
+  - assert (Hne : t' <> t) by (intros ->; apply (Hn ok); reflexivity).
+    destruct (nth_error (M.thrs s) t') as [th'|] eqn:Ht'; [|rewrite (tstep_none _ _ _ Ht'); exact Ht].
+    destruct (tstep_sum s t' ok th' Ht') as [E|(p' & lo & bo & Et & _)]; [rewrite E; exact Ht|].
+    rewrite Et. rewrite nth_upd_ne by exact Hne. exact Ht.
+  - unfold M.release. destruct (nth_error (M.uh s) u) as [[h r]|]; [|exact Ht]. rewrite lc_do_thrs. exact Ht.
+  - unfold M.release. destruct (nth_error (M.uh s) u) as [[h r]|]; [|exact Ht]. rewrite lc_do_thrs. exact Ht.
+  - rewrite lc_do_thrs. exact Ht.
+  - rewrite bc_do_thrs. exact Ht.
+  - destruct (nth_error (M.uh s) u) as [[h r]|]; [|exact Ht]. destruct (M.layer_flags s h). exact Ht.
+  - destruct (nth_error (M.uh s) u) as [[h r]|]; [|exact Ht]. destruct (M.layer_flags s h). exact Ht.
+Qed.
+
+Lemma step_hval s o h v : M.hval (M.lc s) h = Some v -> M.hval (M.lc (fst (M.step s o))) h = Some v.
+Proof.
+  intros H. destruct o as [n|t' ok|u|u|n|n|u|u ok]; cbn [M.step fst].
+  - exact H.
+  - destruct (nth_error (M.thrs s) t') as [th'|] eqn:Ht'; [|rewrite (tstep_none _ _ _ Ht'); exact H].
+    destruct (tstep_sum s t' ok th' Ht') as [E|(p' & lo & bo & _ & Hl & _)]; [rewrite E; exact H|].
+    unfold lmove in Hl. rewrite Hl. destruct lo; [apply hval_step|]; exact H.
+  - unfold M.release. destruct (nth_error (M.uh s) u) as [[h0 r]|]; [|exact H]. rewrite lc_do_lc. apply hval_step. exact H.
+  - unfold M.release. destruct (nth_error (M.uh s) u) as [[h0 r]|]; [|exact H]. rewrite lc_do_lc. apply hval_step. exact H.
+  - rewrite lc_do_lc. apply hval_step. exact H.
+  - rewrite bc_do_lc. exact H.
+  - destruct (nth_error (M.uh s) u) as [[h0 r]|]; [|exact H]. destruct (M.layer_flags s h0). exact H.
+  - destruct (nth_error (M.uh s) u) as [[h0 r]|]; [|exact H]. destruct (M.layer_flags s h0). exact H.
+Qed.
+
+(* ---------- single instance ---------- *)
+(* what a returning sub-step returns *)
+Lemma ret_spec s t ok th v fr : RInv s -> LI s -> nth_error (M.thrs s) t = Some th ->
+  snd (M.tstep s t ok) = M.ERet v fr ->
+  let n := M.t_name th in let s' := fst (M.tstep s t ok) in
+  (fr = true /\ (exists bh d, M.t_pc th = M.PMeta bh d) /\ lru_find (lru (M.lc s)) n = None /\
+   v = length (ents (M.lc s)) /\ lru_find (lru (M.lc s')) n = Some v)
+  \/ (fr = false /\ exists h, M.t_pc th = M.PHit h /\ M.hval (M.lc s) h = Some v /\ M.lc s' = M.lc s).
+Proof.
+  intros I L Ht. unfold M.tstep. rewrite Ht. cbv zeta.
+  destruct (M.t_pc th) as [|h|h| | |bh|bh| | |d|bh|bh d|] eqn:Hp; cbn [fst snd]; try discriminate.
+  - destruct (M.mem _ _); [discriminate|]. destruct (snd (M.lc_do _ _)); discriminate.
+  - destruct (M.layer_flags s h). destruct (_ && _); [|discriminate]. destruct (M.hval (M.lc s) h) as [w|] eqn:Hv; [|discriminate].
+    cbn [fst snd]. intros E. inversion E; subst. right. split; [reflexivity|]. exists h. repeat split; try reflexivity. exact Hv.
+  - destruct (snd (M.bc_do _ _)); discriminate.
+  - destruct (_ && _); discriminate.
+  - destruct ok; [destruct (snd (M.bc_do _ _)) as [[? []]|]; discriminate|discriminate].
+  - destruct ok; [|discriminate].
+    assert (Hf : lru_find (lru (M.lc s)) (M.t_name th) = None) by (apply (l_lmiss _ L t th Ht); rewrite Hp; reflexivity).
+    rewrite snd_lc_do, (add_miss_spec _ _ (i_capl _ _ _ _ _ I) Hf). cbn [fst snd]. intros E. inversion E; subst.
+    left. repeat split; eauto. autorewrite with proj.
+    rewrite (add_miss_spec _ _ (i_capl _ _ _ _ _ I) Hf). cbn [fst]. apply find_after_add_new.
+Qed.
+
+(* a Resolve of a name whose lock is held blocks *)
+Lemma blocked_while_held s t th t2 th2 ok : LI s ->
+  nth_error (M.thrs s) t = Some th -> M.t_pc th = M.PWait ->
+  nth_error (M.thrs s) t2 = Some th2 -> active (M.t_pc th2) = true -> M.t_name th2 = M.t_name th ->
+  M.tstep s t ok = (s, M.EBlocked).
+Proof.
+  intros L Ht Hp Ht2 Ha En. unfold M.tstep. rewrite Ht, Hp.
+  assert (Hm : M.mem (M.t_name th) (M.locks s) = true) by (apply mem_In; rewrite <- En; apply (LI_holds s t2 th2 L Ht2 Ha)).
+  rewrite Hm. reflexivity.
+Qed.
+
+(* overlapping calls: a call whose lookup found instance v cached returns v (shared, not fresh) whenever it returns
+   at its check step, whatever happens in between *)
+Lemma overlap_same os2 : forall s t n h v,
+  nth_error (M.thrs s) t = Some (M.mkT n (M.PHit h)) -> M.hval (M.lc s) h = Some v ->
+  Forall (not_step_of t) os2 ->
+  let s2 := M.exec s os2 in
+  nth_error (M.thrs s2) t = Some (M.mkT n (M.PHit h)) /\ M.hval (M.lc s2) h = Some v /\
+  forall ok, snd (M.tstep s2 t ok) = M.ERet v false \/ (snd (M.tstep s2 t ok) = M.ENone /\ M.pc_of (fst (M.tstep s2 t ok)) t = M.PEvict h).
+Proof.
+  induction os2 as [|o os2 IH]; intros s t n h v Ht Hv Hall; cbn.
+  - split; [exact Ht|]. split; [exact Hv|]. intros ok. unfold M.tstep. rewrite Ht. cbn [M.t_pc M.t_name].
+    destruct (M.layer_flags s h). destruct (_ && _).
+    + rewrite Hv. left. reflexivity.
+    + right. split; [reflexivity|]. cbn [fst]. apply (pc_of_setpc _ _ _ _ _ Ht).
+  - inversion Hall as [|? ? Ho Hrest]; subst. apply IH; [apply step_other; assumption|apply step_hval; exact Hv|exact Hrest].
+Qed.
+
+(* the four clauses of single_instance, for any state satisfying both invariants *)
+Lemma single_instance s : RInv s -> LI s ->
+    (forall t1 t2 th1 th2, nth_error (M.thrs s) t1 = Some th1 -> nth_error (M.thrs s) t2 = Some th2 ->
+       active (M.t_pc th1) = true -> active (M.t_pc th2) = true -> M.t_name th1 = M.t_name th2 -> t1 = t2) /\
+    (forall t th, nth_error (M.thrs s) t = Some th -> active (M.t_pc th) = true ->
+       In (M.t_name th) (M.locks s) /\
+       forall t' th' ok, nth_error (M.thrs s) t' = Some th' -> M.t_pc th' = M.PWait -> M.t_name th' = M.t_name th ->
+         M.tstep s t' ok = (s, M.EBlocked)) /\
+    (forall t th, nth_error (M.thrs s) t = Some th ->
+       (lmissed (M.t_pc th) = true -> lru_find (lru (M.lc s)) (M.t_name th) = None) /\
+       (bmissed (M.t_pc th) = true -> lru_find (lru (M.bc s)) (M.t_name th) = None)) /\
+    (forall t th ok v fr, nth_error (M.thrs s) t = Some th -> snd (M.tstep s t ok) = M.ERet v fr ->
+       (fr = true /\ (exists bh d, M.t_pc th = M.PMeta bh d) /\ lru_find (lru (M.lc s)) (M.t_name th) = None /\
+        v = length (ents (M.lc s)) /\ lru_find (lru (M.lc (fst (M.tstep s t ok)))) (M.t_name th) = Some v)
+       \/ (fr = false /\ exists h, M.t_pc th = M.PHit h /\ M.hval (M.lc s) h = Some v /\ M.lc (fst (M.tstep s t ok)) = M.lc s)).
+Proof.
+  intros I L.
+  split; [intros t1 t2 th1 th2; exact (LI_excl s t1 t2 th1 th2 L)|].
+  split; [intros t th Ht Ha; split; [exact (LI_holds s t th L Ht Ha)|
+          intros t' th' ok Ht' Hp En; exact (blocked_while_held s t' th' t th ok L Ht' Hp Ht Ha (eq_sym En))]|].
+  split; [intros t th Ht; split; [exact (l_lmiss s L t th Ht)|exact (l_bmiss s L t th Ht)]|].
+  intros t th ok v fr Ht Hr. exact (ret_spec s t ok th v fr I L Ht Hr).
+Qed.
